@@ -55,3 +55,78 @@ func ruleSnapshotReadsUnderLock(p *Prog, r *Report, rule string) {
 	}
 	r.Site(n)
 }
+
+// ruleSnapshotReadsFrozenSeq: a snapshot read answers from the sequence fixed when the snapshot was
+// taken. Snapshot.Get / Has / NewIterator therefore (a) hand the DB's internal read a sequence that
+// originates in snap.elem.seq, and (b) never reach (*DB).acquireSnapshot — the entry point of a
+// FRESH view, which the exported DB.Get / Has / NewIterator / GetSnapshot go through. Delegating a
+// snapshot read to one of those answers from the live DB: writes made after the snapshot show.
+func ruleSnapshotReadsFrozenSeq(p *Prog, r *Report, rule string) {
+	r.Begin(rule, "E-REACH", "snapshot reads use the frozen sequence: Snapshot.Get / Has / NewIterator pass snap.elem.seq to the DB's internal read and reach no fresh-view entry point ((*DB).acquireSnapshot) through static calls", 3)
+	defer r.End()
+	fresh := "(*leveldb.DB).acquireSnapshot"
+	// functions that (transitively, statically, within package leveldb) take a fresh view
+	takes := map[*ssa.Function]bool{}
+	var reaches func(fn *ssa.Function, depth int, seen map[*ssa.Function]bool) bool
+	reaches = func(fn *ssa.Function, depth int, seen map[*ssa.Function]bool) bool {
+		if fn == nil || depth == 0 || seen[fn] || len(fn.Blocks) == 0 {
+			return false
+		}
+		if v, ok := takes[fn]; ok && v {
+			return true
+		}
+		seen[fn] = true
+		found := false
+		instrs(fn, func(_ *ssa.BasicBlock, _ int, in ssa.Instruction) {
+			if found {
+				return
+			}
+			cc := callCommon(in)
+			if cc == nil {
+				return
+			}
+			if isCallTo(in, fresh) {
+				found = true
+				return
+			}
+			if f := staticCallee(cc); f != nil && f.Pkg != nil && f.Pkg == fn.Pkg {
+				if reaches(f, depth-1, seen) {
+					found = true
+				}
+			}
+		})
+		if found {
+			takes[fn] = true
+		}
+		return found
+	}
+	if resolveFn(p, r, "leveldb", "(*DB).acquireSnapshot") == nil {
+		return
+	}
+	for _, m := range []string{"(*Snapshot).Get", "(*Snapshot).Has", "(*Snapshot).NewIterator"} {
+		fn := resolveFn(p, r, "leveldb", m)
+		if fn == nil {
+			continue
+		}
+		r.Site(1)
+		r.Check(!reaches(fn, 4, map[*ssa.Function]bool{}), fnName(fn), "no-fresh-view", "the snapshot read reaches no fresh-view entry point", "a static call chain from "+m+" reaches "+fresh+": the read is answered at the DB's current sequence, not the snapshot's", p.Pos(fn.Pos()))
+		// some call into the DB receives snap.elem.seq
+		n := countInstr(fn, func(in ssa.Instruction) bool {
+			cc := callCommon(in)
+			if cc == nil {
+				return false
+			}
+			f := staticCallee(cc)
+			if f == nil || f.Signature.Recv() == nil || namedOf(derefT(f.Signature.Recv().Type())) != tDB {
+				return false
+			}
+			for _, a := range cc.Args {
+				if isFieldLoad(a, "leveldb.snapshotElement", "seq") {
+					return true
+				}
+			}
+			return false
+		})
+		r.Check(n >= 1, fnName(fn), "frozen-seq-passed", "a DB read is called with snap.elem.seq", "no method of *DB is called with the snapshot element's sequence", p.Pos(fn.Pos()))
+	}
+}
